@@ -5,6 +5,7 @@
 //!                         the error text goes to stderr. The library prints cargo directives
 //!                         (`cargo:rerun-if-changed=...`) on stdout, which is why the JSON-lines
 //!                         subcommand below runs this in a child process.
+//! `c16 api1 p o lib`      (no stdin) calls generate_from_config (library entry) in the cwd.
 //! `c16 build`             JSON lines: {"id", "cwd": absolute directory}; for each case a child
 //!                         `c16 build1` is started with that working directory (fresh process =
 //!                         fresh hash keys, private cwd) and {"id","status","stdout","stderr"}
@@ -39,10 +40,35 @@ pub fn build(case: &Value) -> Value {
     })
 }
 
+/// `c16 api1 <project_path> <output_path> <validation_library>`: the library entry
+/// tauri_typegen::generate_from_config in the current working directory; exit status 0 = Ok
+/// (the number of written files on stderr as `FILES n`), 3 = Err.
+fn api1(args: &[String]) -> ! {
+    let config = tauri_typegen::GenerateConfig {
+        project_path: args[2].clone(),
+        output_path: args[3].clone(),
+        validation_library: args[4].clone(),
+        ..Default::default()
+    };
+    match tauri_typegen::generate_from_config(&config) {
+        Ok(files) => {
+            eprintln!("FILES {}", files.len());
+            std::process::exit(0)
+        }
+        Err(e) => {
+            eprintln!("ERR: {e}");
+            std::process::exit(3)
+        }
+    }
+}
+
 fn main() {
     let args: Vec<String> = std::env::args().collect();
     if args.get(1).map(|s| s.as_str()) == Some("build1") {
         build1();
+    }
+    if args.get(1).map(|s| s.as_str()) == Some("api1") && args.len() >= 5 {
+        api1(&args);
     }
     tt_harness::dispatch(&[("build", build)]);
 }
